@@ -1,0 +1,24 @@
+//go:build verif
+
+package common
+
+import "sync/atomic"
+
+// Verification hook (build tag verif only), called by CPRNG.Read right after it reserved its
+// keystream blocks. See verifx.SetCommonVerifHook.
+var verifHookFn atomic.Pointer[func(point string, args ...any)]
+
+func verifHook(point string, args ...any) {
+	if f := verifHookFn.Load(); f != nil {
+		(*f)(point, args...)
+	}
+}
+
+// SetVerifHook installs the hook function; nil removes it.
+func SetVerifHook(f func(point string, args ...any)) {
+	if f == nil {
+		verifHookFn.Store(nil)
+		return
+	}
+	verifHookFn.Store(&f)
+}
